@@ -1,4 +1,318 @@
-/- C08 — property theorems (under construction). -/
+/-
+  C08 — a request with `AuthUser:` never shows an object the user is not a contact of.
+
+  `mayView` below is the declarative statement of who may see what; the theorems say that the
+  authorisation code (`checkAuth` and the functions it calls, mirrored from pkg/lmd/datarow.go)
+  decides exactly `mayView`, and that the row loop keeps exactly the rows `mayView` accepts.
+  Property theorems only; helper lemmas live in Lmd/Lemmas/Auth.lean.
+-/
 import Lmd.Props.C01
+import Lmd.Lemmas.Auth
+
 namespace Lmd.C08
+
+/-! ## The specification -/
+
+/-- the hosts row the daemon knows under the name `h` (the last one, should the name occur twice) -/
+def hostRow (cx : Ctx) (h : String) : Option Row :=
+  findByKey (cx.table "hosts") (cx.b.rows "hosts") [h]
+
+/-- the services row the daemon knows under `(h, s)` -/
+def svcRow (cx : Ctx) (h s : String) : Option Row :=
+  findByKey (cx.table "services") (cx.b.rows "services") [h, s]
+
+def hostgroupRow (cx : Ctx) (g : String) : Option Row :=
+  findByKey (cx.table "hostgroups") (cx.b.rows "hostgroups") [g]
+
+def servicegroupRow (cx : Ctx) (g : String) : Option Row :=
+  findByKey (cx.table "servicegroups") (cx.b.rows "servicegroups") [g]
+
+/-- the row lists `user` in its `contacts` column -/
+def listsContact (user : String) (r : Row) : Bool := (r.strList "contacts").contains user
+
+/-- host `h` exists and lists `user` as a contact -/
+def hostContact (cx : Ctx) (user h : String) : Bool := (hostRow cx h).any (listsContact user)
+
+/-- service `(h, s)` exists and lists `user` as a contact -/
+def svcContact (cx : Ctx) (user h s : String) : Bool := (svcRow cx h s).any (listsContact user)
+
+def viewHost (cx : Ctx) (user h : String) : Bool := hostContact cx user h
+
+/-- strict service authorisation: contacts of the service; loose: also the contacts of its host.
+    In loose mode a service whose host row is missing is not viewable (stated from the code). -/
+def viewService (cx : Ctx) (user h s : String) : Bool :=
+  if cx.ds.serviceAuthLoose then
+    (hostRow cx h).isSome && (hostContact cx user h || svcContact cx user h s)
+  else svcContact cx user h s
+
+/-- the object a `(host, service description)` pair names: an empty description names the host
+    (comments and downtimes of hosts; the code treats every empty description this way) -/
+def viewObject (cx : Ctx) (user h s : String) : Bool :=
+  if s = "" then viewHost cx user h else viewService cx user h s
+
+/-- group rule: loose = some member viewable; strict = at least one member and all viewable
+    (an empty group is not viewable in either mode) -/
+def viewMembers {α : Type} (loose : Bool) (view : α → Bool) (ms : List α) : Bool :=
+  if loose then ms.any view else !ms.isEmpty && ms.all view
+
+def viewHostGroup (cx : Ctx) (user g : String) : Bool :=
+  match hostgroupRow cx g with
+  | none => false
+  | some gr => viewMembers cx.ds.groupAuthLoose (viewHost cx user) (gr.strList "members")
+
+def viewServiceGroup (cx : Ctx) (user g : String) : Bool :=
+  match servicegroupRow cx g with
+  | none => false
+  | some gr =>
+    viewMembers cx.ds.groupAuthLoose (fun (m : String × String) => viewObject cx user m.1 m.2) (gr.members "members")
+
+/-- the tables whose rows are subject to authorisation -/
+def authTables : List String :=
+  ["hosts", "services", "hostgroups", "servicegroups", "hostsbygroup", "servicesbygroup",
+   "servicesbyhostgroup", "downtimes", "comments"]
+
+/-- may `user` see row `r` of table `t`?  (empty user = no `AuthUser:` header = everything) -/
+def mayView (cx : Ctx) (t : Table) (user : String) (r : Row) : Bool :=
+  if user = "" then true
+  else
+    match t.name with
+    | "hosts" => viewHost cx user (r.str t "name")
+    | "services" => viewObject cx user (r.str t "host_name") (r.str t "description")
+    | "hostgroups" => viewHostGroup cx user (r.str t "name")
+    | "servicegroups" => viewServiceGroup cx user (r.str t "name")
+    | "hostsbygroup" => viewHost cx user (r.str t "name") && viewHostGroup cx user (r.str t "hostgroup_name")
+    | "servicesbygroup" =>
+      viewObject cx user (r.str t "host_name") (r.str t "description") &&
+        viewServiceGroup cx user (r.str t "servicegroup_name")
+    | "servicesbyhostgroup" =>
+      viewObject cx user (r.str t "host_name") (r.str t "description") &&
+        viewHostGroup cx user (r.str t "hostgroup_name")
+    | "downtimes" | "comments" => viewObject cx user (r.str t "host_name") (r.str t "service_description")
+    | _ => true
+
+/-! ### the specification read as propositions -/
+
+/-- "the hosts row with name `h`" is the last row of the backend's hosts store whose key is `h` -/
+theorem hostRow_last (cx : Ctx) (h : String) (r : Row) :
+    hostRow cx h = some r ↔
+      ∃ pre post, cx.b.rows "hosts" = pre ++ r :: post ∧ r.key (cx.table "hosts") = [h] ∧
+        ∀ x ∈ post, x.key (cx.table "hosts") ≠ [h] :=
+  Lemmas.findByKey_eq_some _ _ _ _
+
+/-- a host is viewable iff its row exists and names the user among its contacts -/
+theorem viewHost_iff (cx : Ctx) (user h : String) :
+    viewHost cx user h = true ↔ ∃ r, hostRow cx h = some r ∧ user ∈ r.strList "contacts" := by
+  unfold viewHost hostContact listsContact
+  cases hostRow cx h <;> simp
+
+/-- strict mode: a service is viewable iff its own row names the user -/
+theorem viewService_strict_iff (cx : Ctx) (user h s : String) (hm : cx.ds.serviceAuthLoose = false) :
+    viewService cx user h s = true ↔ ∃ r, svcRow cx h s = some r ∧ user ∈ r.strList "contacts" := by
+  unfold viewService svcContact listsContact
+  cases svcRow cx h s <;> simp [hm]
+
+/-- loose mode: the host must exist, and the host row or the service row names the user -/
+theorem viewService_loose_iff (cx : Ctx) (user h s : String) (hm : cx.ds.serviceAuthLoose = true) :
+    viewService cx user h s = true ↔
+      ∃ hr, hostRow cx h = some hr ∧
+        (user ∈ hr.strList "contacts" ∨ ∃ r, svcRow cx h s = some r ∧ user ∈ r.strList "contacts") := by
+  unfold viewService hostContact svcContact listsContact
+  cases hostRow cx h <;> cases svcRow cx h s <;> simp [hm]
+
+/-- a host group is viewable iff it exists and, loose: some member host is viewable;
+    strict: it has members and every member host is viewable -/
+theorem viewHostGroup_iff (cx : Ctx) (user g : String) :
+    viewHostGroup cx user g = true ↔
+      ∃ gr, hostgroupRow cx g = some gr ∧
+        (if cx.ds.groupAuthLoose then ∃ m ∈ gr.strList "members", viewHost cx user m = true
+         else gr.strList "members" ≠ [] ∧ ∀ m ∈ gr.strList "members", viewHost cx user m = true) := by
+  unfold viewHostGroup viewMembers
+  cases hostgroupRow cx g <;> cases cx.ds.groupAuthLoose <;> simp
+
+/-! ## 1. the member loop -/
+
+/-- Strict group authorisation ("return true on the last index" in the Go loop) accepts a member
+    list of any length iff it is non-empty and every member is authorised. -/
+theorem groupLoop_strict {α : Type} (auth : α → Bool) (ms : List α) :
+    groupLoop false auth ms = (!ms.isEmpty && ms.all auth) := Lemmas.groupLoop_false auth ms
+
+/-- Loose group authorisation accepts a member list of any length iff some member is authorised. -/
+theorem groupLoop_loose {α : Type} (auth : α → Bool) (ms : List α) :
+    groupLoop true auth ms = ms.any auth := Lemmas.groupLoop_true auth ms
+
+/-- both modes at once: the loop computes the declarative group rule -/
+theorem groupLoop_eq_viewMembers {α : Type} (loose : Bool) (auth : α → Bool) (ms : List α) :
+    groupLoop loose auth ms = viewMembers loose auth ms := by
+  cases loose <;> simp [viewMembers, groupLoop_strict, groupLoop_loose]
+
+/-! ## 2. the three authorisation functions -/
+
+/-- `isAuthorizedFor(user, host, service)` decides exactly "user may view that host (empty service)
+    or that service", in both `ServiceAuthorization` modes, for every dataset. -/
+theorem isAuthorizedFor_spec (cx : Ctx) (user h s : String) :
+    isAuthorizedFor cx user h s = viewObject cx user h s := by
+  unfold isAuthorizedFor viewObject viewHost viewService hostContact svcContact hostRow svcRow listsContact
+  by_cases hs : s = ""
+  · subst hs
+    cases findByKey (cx.table "hosts") (cx.b.rows "hosts") [h] with
+    | none => simp
+    | some r => by_cases hc : user ∈ r.strList "contacts" <;> simp [hc]
+  · cases hm : cx.ds.serviceAuthLoose
+    · cases findByKey (cx.table "services") (cx.b.rows "services") [h, s] <;> simp [hs]
+    · cases findByKey (cx.table "hosts") (cx.b.rows "hosts") [h] with
+      | none => simp [hs]
+      | some r =>
+        by_cases hc : user ∈ r.strList "contacts" <;>
+          cases findByKey (cx.table "services") (cx.b.rows "services") [h, s] <;> simp [hs, hc]
+
+/-- for a host (empty service description) the check is: the host row names the user -/
+theorem isAuthorizedFor_host (cx : Ctx) (user h : String) :
+    isAuthorizedFor cx user h "" = viewHost cx user h := by
+  simp [isAuthorizedFor_spec, viewObject]
+
+/-- for a proper service the check is `viewService` -/
+theorem isAuthorizedFor_service (cx : Ctx) (user h s : String) (hs : s ≠ "") :
+    isAuthorizedFor cx user h s = viewService cx user h s := by
+  simp [isAuthorizedFor_spec, viewObject, hs]
+
+/-- `isAuthorizedForHostGroup` decides exactly `viewHostGroup`, in both `GroupAuthorization` modes. -/
+theorem hostGroup_spec (cx : Ctx) (user g : String) :
+    isAuthorizedForHostGroup cx user g = viewHostGroup cx user g := by
+  unfold isAuthorizedForHostGroup viewHostGroup hostgroupRow
+  cases findByKey (cx.table "hostgroups") (cx.b.rows "hostgroups") [g] with
+  | none => rfl
+  | some gr =>
+    simp only [groupLoop_eq_viewMembers]
+    congr 1
+    funext m
+    exact isAuthorizedFor_host cx user m
+
+/-- `isAuthorizedForServiceGroup` decides exactly `viewServiceGroup`. -/
+theorem serviceGroup_spec (cx : Ctx) (user g : String) :
+    isAuthorizedForServiceGroup cx user g = viewServiceGroup cx user g := by
+  unfold isAuthorizedForServiceGroup viewServiceGroup servicegroupRow
+  cases findByKey (cx.table "servicegroups") (cx.b.rows "servicegroups") [g] with
+  | none => rfl
+  | some gr =>
+    simp only [groupLoop_eq_viewMembers]
+    congr 1
+    funext m
+    exact isAuthorizedFor_spec cx user m.1 m.2
+
+/-! ## 3. `checkAuth` -/
+
+/-- For every table, every user and every row, `DataRow.checkAuth` accepts the row iff the
+    specification `mayView` does. -/
+theorem checkAuth_eq_mayView (cx : Ctx) (t : Table) (user : String) (r : Row) :
+    checkAuth cx t user r = mayView cx t user r := by
+  unfold checkAuth mayView
+  simp only [beq_iff_eq, isAuthorizedFor_spec, hostGroup_spec, serviceGroup_spec, viewObject, if_true]
+  rfl
+
+/-! ## 4. the row loop -/
+
+/-- with the negation defect repaired both ways of evaluating the filter list agree with its meaning -/
+theorem rowMatches_eq_sem (m : EvalMode) (hq : m.q.negOr = false) (v : View) (fs : List Filter) :
+    rowMatches m v fs = semList m.q v fs := by
+  unfold rowMatches matchAll semList
+  split
+  · congr 1
+    funext f
+    simp [C01.matchF_eq_sem m.q hq v f false]
+  · rfl
+
+/-- Full scan, no early cut, negation repaired: the rows one backend contributes to a request with
+    `AuthUser: u` are exactly the rows of the table that satisfy the filter and that `u` may view,
+    in store order - nothing more, nothing less. -/
+theorem auth_rows (m : EvalMode) (cx : Ctx) (t : Table) (req : Request)
+    (hi : m.useIndex = false) (hc : m.earlyCut = false) (hq : m.q.negOr = false) :
+    (gatherRows m cx t req).hits.map (·.r) =
+      (tableRows cx t).filter (fun r =>
+        semList m.q (mkView cx t r) req.filter && mayView cx t req.authUser r) := by
+  simp [gatherRows, hi, hc, rowMatches_eq_sem m hq, checkAuth_eq_mayView, Function.comp_def]
+
+/-- In every evaluation mode (also with index pre-selection and the early limit cut, i.e. the code
+    as it runs) every row a backend returns for `AuthUser: u` is one `u` may view. -/
+theorem auth_sound (m : EvalMode) (cx : Ctx) (t : Table) (req : Request) (h : Hit)
+    (hh : h ∈ (gatherRows m cx t req).hits) : mayView cx t req.authUser h.r = true := by
+  have key : ∀ (l : List Row) (p : Row → Bool) (g : Row → Hit), (∀ r, (g r).r = r) →
+      ∀ x ∈ (l.filter (fun r => p r && checkAuth cx t req.authUser r)).map g,
+        mayView cx t req.authUser x.r = true := by
+    intro l p g hg x hx
+    simp only [List.mem_map, List.mem_filter, Bool.and_eq_true] at hx
+    obtain ⟨r, ⟨_, _, hr⟩, rfl⟩ := hx
+    rw [hg, ← checkAuth_eq_mayView]; exact hr
+  unfold gatherRows at hh
+  simp only at hh
+  split at hh
+  · exact key _ _ _ (fun _ => rfl) h hh
+  · exact key _ _ _ (fun _ => rfl) h (List.mem_of_mem_take hh)
+
+/-- Headline for the hosts table: a host returned to `AuthUser: u` exists in the store and its
+    (last) row names `u` among its contacts. -/
+theorem hosts_only_contacts (m : EvalMode) (cx : Ctx) (t : Table) (req : Request) (h : Hit)
+    (ht : t.name = "hosts") (hu : req.authUser ≠ "") (hh : h ∈ (gatherRows m cx t req).hits) :
+    ∃ hr, hostRow cx (h.r.str t "name") = some hr ∧ req.authUser ∈ hr.strList "contacts" := by
+  have := auth_sound m cx t req h hh
+  simp only [mayView, hu, if_false, ht] at this
+  exact (viewHost_iff cx _ _).1 this
+
+/-- Headline for the services table: a service (non-empty description) returned to `AuthUser: u` is
+    viewable by `u` in the sense of `viewService` (see `viewService_strict_iff` / `_loose_iff`). -/
+theorem services_only_contacts (m : EvalMode) (cx : Ctx) (t : Table) (req : Request) (h : Hit)
+    (ht : t.name = "services") (hu : req.authUser ≠ "") (hd : h.r.str t "description" ≠ "")
+    (hh : h ∈ (gatherRows m cx t req).hits) :
+    viewService cx req.authUser (h.r.str t "host_name") (h.r.str t "description") = true := by
+  have := auth_sound m cx t req h hh
+  simp only [mayView, hu, if_false, ht, viewObject, hd] at this
+  exact this
+
+/-- on a table that is not subject to authorisation every row passes `checkAuth` -/
+theorem checkAuth_other (cx : Ctx) (t : Table) (user : String) (r : Row) (ht : t.name ∉ authTables) :
+    checkAuth cx t user r = true := by
+  simp only [authTables, List.mem_cons, List.not_mem_nil, or_false, not_or] at ht
+  obtain ⟨h1, h2, h3, h4, h5, h6, h7, h8, h9⟩ := ht
+  unfold checkAuth
+  split
+  · rfl
+  · split <;> first | rfl | (exfalso; simp_all)
+
+/-- For every table outside the nine listed ones (contacts, status, timeperiods, backends, ...) an
+    `AuthUser:` header changes nothing in what a backend returns. -/
+theorem no_contacts_unaffected (m : EvalMode) (cx : Ctx) (t : Table) (req : Request)
+    (ht : t.name ∉ authTables) :
+    gatherRows m cx t req = gatherRows m cx t { req with authUser := "" } := by
+  have h1 : ∀ u, checkAuth cx t u = fun _ => true := fun u => funext (fun r => checkAuth_other cx t u r ht)
+  have h2 : resultLimit { req with authUser := "" } = resultLimit req := rfl
+  simp only [gatherRows, h1, h2]
+
+/-! ## non-vacuity on the demo dataset (Lmd.Demo: hosts h1 (alice), h2 (bob), group g = {h1, h2}) -/
+
+section Examples
+open Lmd.Demo
+
+/-- alice sees her host and not bob's -/
+example : mayView (cx false) hostsT "alice" hostH1 = true ∧ mayView (cx false) hostsT "alice" hostH2 = false := by
+  decide
+/-- a host group with one authorised and one unauthorised member: hidden in strict, shown in loose mode -/
+example : viewHostGroup (cx false) "alice" "g" = false ∧ viewHostGroup (cx true) "alice" "g" = true := by
+  decide
+/-- an empty group is hidden in both modes; an unknown group too -/
+example : viewHostGroup (cx false) "alice" "empty" = false ∧ viewHostGroup (cx true) "alice" "empty" = false ∧
+    viewHostGroup (cx true) "alice" "nosuch" = false := by decide
+/-- strict service authorisation: alice sees (h2, s2) which names her, not (h1, s1) on her own host -/
+example : viewService (cx false) "alice" "h2" "s2" = true ∧ viewService (cx false) "alice" "h1" "s1" = false := by
+  decide
+/-- `auth_rows` is applicable to the specification mode and the result is not trivial -/
+example : (gatherRows EvalMode.spec (cx false) hostsT { table := "hosts", authUser := "alice" }).hits.map
+    (fun h => h.r.str hostsT "name") = ["h1"] := by decide
+example : EvalMode.spec.useIndex = false ∧ EvalMode.spec.earlyCut = false ∧ EvalMode.spec.q.negOr = false := by
+  decide
+/-- `no_contacts_unaffected` applies to the contacts table, which has rows -/
+example : contactsT.name ∉ authTables ∧
+    (gatherRows EvalMode.spec (cx false) contactsT { table := "contacts", authUser := "alice" }).hits.length = 2 := by
+  decide
+
+end Examples
+
 end Lmd.C08
